@@ -387,7 +387,7 @@ func init() {
 			{ID: "C01.R2", Min: 2, Desc: "release-then-recheck: exit only after Store(idle) and fresh evidence that nothing is eligible (or CAS lost)", Fn: c01Release},
 			{ID: "C01.R3", Min: 4, Desc: "publish before wake: push and counter increment precede the election CAS on both branches", Fn: c01Publish},
 			{ID: "C01.R4", Min: 4, Desc: "counter pairing: ok-edge of each pop decrements its own counter exactly once, never on !ok", Fn: c01Counters},
-			{ID: "C01.R5", Min: 4, Desc: "exactly-once hand-off: HandleEnvelop only in the handler loop, once per ok-edge, with the popped value; loop only from consumer; consumer only via go", Fn: c01Handoff},
+			{ID: "C01.R5", Min: 3, Desc: "exactly-once hand-off: HandleEnvelop only in the handler loop, once per ok-edge, with the popped value; loop only from consumer; consumer only via go", Fn: c01Handoff},
 			{ID: "C01.R6", Min: 3, Desc: "pause gate: user pop under a fresh not-paused observation; system pop not gated by pause", Fn: c01PauseGate},
 			{ID: "C01.R7", Min: 2, Desc: "no spin / no lost wake-up: re-arm only with fresh evidence of eligible work", Fn: c01NoSpin},
 			{ID: "C01.R8", Min: 2, Desc: "resume wakes: every un-pausing write is followed by the election and a spawn; Pause only pauses", Fn: c01Resume},
@@ -552,7 +552,16 @@ func c01Election(p *Program, r *Report) {
 				case "Store":
 					v, ok1 := constInt(a.Args[0])
 					w := p.workNodes(m, fn)
-					good = ok1 && v == m.IdleVal && fn == m.Consumer && gg.DominatedByNodes(i, w)
+					// after the handler loop returned: dominated by the call of the loop function — or, when the drain loop
+					// lives in the consumer itself (no separate loop function), nothing more to ask here: clause (b) shows that
+					// no handler invocation follows the store except through a won CAS
+					inlineLoop := false
+					for n := range w {
+						if m.isHandleInvoke(gg.Nodes[n]) {
+							inlineLoop = true
+						}
+					}
+					good = ok1 && v == m.IdleVal && fn == m.Consumer && (gg.DominatedByNodes(i, w) || inlineLoop)
 					why = "status is released (Store idle) only by the consumer, after the handler loop returned"
 				default:
 					why = "unexpected atomic write to status"
@@ -994,6 +1003,11 @@ func derivesFromExtract(v ssa.Value, tuple ssa.Value, idx int) bool {
 				}
 			}
 			return len(x.Edges) > 0
+		case *ssa.UnOp:
+			// load of a local cell holding the value (a struct value whose fields are addressed is spilled)
+			if w := strip(x); w != ssa.Value(x) {
+				return rec(w)
+			}
 		}
 		return false
 	}
